@@ -145,6 +145,47 @@ CHECKS = {
         technique="TLA+ spec (Parallel) model-checked + scheduled real extractions with recording callbacks + trace validation (TraceParallel)",
         design_ref="3.6, 4 C18",
     ),
+    "C14": dict(
+        level="model_checking",
+        text="Crash.tla models the archive file as cells (six signature-header fields, data units, packed header, header record), the "
+             "write operations of create and append sessions in program order, a crash between or inside any operation and the last "
+             "operation dropped or reordered; Accept is the reader's open pipeline; TLC checks CrashSafe/Honest for nine session shapes "
+             "(the one model-level counterexample - append without data rewriting an unchecksummed packed header in place - is replayed). "
+             "The real seek/write stream of create and append sessions (incl. empty and directory-only appends, raw/encoded/encrypted "
+             "header) is recorded, its order compared with the specification's commit order, and EVERY byte-granular prefix (plus "
+             "reordered-last-operation variants) is materialised and opened in a sandbox: error, or exactly the old or new members.",
+        note="Trusted: TLC; CRC32 mismatches are detected (no adversarial collisions); sessions are recorded through a stream target "
+             "(path mode issues the same writes through the same code).",
+        technique="TLA+ spec (Crash) model-checked + exhaustive crash-point enumeration of recorded write streams replayed into the reader",
+        design_ref="3.3, 4 C14",
+    ),
+    "C04": dict(
+        level="fault_enumeration",
+        text="Integrity.tla is the coverage map of the format's integrity mechanisms as py7zr uses them (which checksum covers which "
+             "region on which read path); TLC checks NoWrongSuccess/HeaderCovered over all layouts x regions x paths. Sample archives "
+             "(py7zr- and reference-written, codec families, AES, raw/encoded header, 1-4 folders, per-file CRCs) are damaged by EVERY "
+             "single-bit flip, truncation lengths, overwrites, bursts, block swaps, insert/remove, extension; each image is read through "
+             "extractall, extract(T), test() and testzip() in a sandbox, and TLC (TraceIntegrity) validates: never success with different "
+             "content, intact archives read and test clean, no integrity call certifies an image that would not extract.",
+        note="Exhaustive over bit positions of each sample archive (<= 700 bytes in quick: all 8 bits of every byte). CRC32 detects every "
+             "burst <= 32 bits; hangs/memory are counted and judged by C05.",
+        technique="TLA+ coverage model (Integrity) + exhaustive single-bit fault enumeration on real archives validated by TLC (TraceIntegrity)",
+        design_ref="3.7, 4 C04",
+    ),
+    "C05": dict(
+        level="model_checking",
+        text="Stream.tla proves (TLC, liveness under weak fairness) that the extraction loop ends - delivered or raised - for every chunking "
+             "also when the stream holds less than declared (negative control: the loop before the repair); HeaderRes.tla models the header "
+             "parser's loops with attacker-controlled counts (allocation proportional to bytes consumed; negative control: unvalidated "
+             "counts). On the code: archives of every codec family are bit-flipped, truncated, spliced, and structure-mutated (every NUMBER "
+             "field := 0,1,2,2^k-1,2^k,2^32,2^63,2^64-1; sections dropped/duplicated/swapped; all CRCs re-sealed so the parser is "
+             "entered), read with wrong/missing passwords, under six call sequences (incl. extract twice without reset) in sandboxed "
+             "children: 10 s wall clock, 1 GiB address space, abnormal exit detected.",
+        note="'Bounded' is fixed as 10 s / 1 GiB for inputs of a few hundred bytes declaring < 1 MiB of output. PPMd archives: the model "
+             "size is an attacker-controlled allocation inside pyppmd (known finding).",
+        technique="TLA+ specs (Stream liveness, HeaderRes) model-checked + structure-aware fault enumeration on the real reader under resource limits",
+        design_ref="3.4, 4 C05",
+    ),
 }
 
 NOT_YET = {}  # id -> reason; filled below for every property without a check
